@@ -12,8 +12,8 @@ CHECKS = {
          "hash/ordered sets and maps, DateTime<Local>, Tz, BigDecimal/BigInt and containers above the stated sizes are outside the claim; the quantifier over type expressions is enumerated by the catalogue (depth <= 3), not solved"),
  "C02": ("§6.C02", "Translation validation of the derive macro per catalogue entry: the code the real macro generates for ~20 declarations (unit/named structs, three Option spellings, transient fields first/middle/last, nested, recursive, enums incl. transient and sorted constructors, and evolved declarations on the encode side) produces byte-for-byte the output of the hand-applied field-by-field procedure and decodes it back, for all field values.",
          "programs (declarations) are enumerated, not quantified; decoding of records with stored version >= 1 is outside (symbolic execution of AdtDeserializer::new does not finish); hashbrown replaced by an association list under cfg(kani)"),
- "C03": ("§6.C03", "Partial: (a) the real chunked writer of five evolved declarations (FieldAdded, FieldMadeOptional, FieldRemoved, FieldMadeTransient, two generations, evolved enum variant) emits exactly the reference header and chunk layout for all field values; (b) a new definition reading version-0 data takes the declared default / wraps, for all payloads; (c) extended enums read old data. The reader on data with stored version >= 1 is not decided.",
-         "every (writer, reader) pair with stored version >= 1 is outside the claim (AdtDeserializer::new exceeds symbolic execution, DESIGN §2.2); histories are the catalogue's five"),
+ "C03": ("§6.C03", "Partial: (a) the real chunked writer of six evolved declarations (FieldAdded, FieldMadeOptional, FieldRemoved, FieldMadeTransient, two generations, evolved enum variant) emits exactly the reference header and chunk layout for all field values; (b) reader on stored version 0: default / specific error / wrap; extended enums read old data; (c) reader on stored version >= 1 as two kernels over the real functions: K1 AdtDeserializer::new maps a catalogue of concrete headers (older, same and newer reader) to exactly the header's chunk windows, made-optional positions and removed names and leaves the cursor after the last chunk; K2 read_field/read_optional_field from that state give the documented outcome table (unwrap / NonOptionalFieldSerializedAsNone / removed / window confinement), chunk bytes symbolic.",
+         "whole-record decoding with stored version >= 1 is not executed (does not finish, DESIGN §2.4): the composition K1;K2 is an informal argument; histories and headers are the catalogue's"),
  "C04": ("§6.C04", "Byte-level conformance in both directions against the independent reference of the format (big-endian numbers, LEB128/zig-zag, tags, counts, byte arrays, tuples/records, enum indices, chrono/uuid layouts, evolution header on the encode side), incl. the unknown-length sequence form the Rust writer never emits. A symmetric change of writer and reader keeps round trips green and breaks both halves against the fixed oracle.",
          "reference model validated against the repository's pinned 14-byte Point vector only; decode of headers (stored version >= 1) outside"),
  "C05": ("§6.C05", "No panic, arithmetic overflow, out-of-bounds access or unbounded loop for every byte string up to the stated length on fixed-layout types, strings, byte containers, arrays, sequences (hostile length/count varints fully symbolic), the three input implementations' read/skip kernels with full-width symbolic counts, unknown enum constructor indices and the FieldPosition byte; agreement with the strict reference decoder is asserted in the same queries.",
